@@ -99,10 +99,10 @@ theorem parse_never_panics_of_parseFuel
     ∀ input, ∃ r, Grammar.parse input = .ok r :=
   fun input => parse_never_panics_of_fuel input (run_not_outOfFuel input (hpf input))
 
-/-- with the present `parseFuel` (64 per character + 4096): every input of at most 143 characters -/
-theorem parse_never_panics_short (input : List Char) (h : input.length ≤ 143) :
-    ∃ r, Grammar.parse input = .ok r :=
-  parse_never_panics_of_fuel input (run_not_outOfFuel input (by unfold Grammar.parseFuel; omega))
+/-- **`parse_never_panics`**: with the present `parseFuel` (128 per character + 4096) `Grammar.parse`
+returns a tree for EVERY input: no panic of any kind, and the fuel suffices -/
+theorem parse_never_panics (input : List Char) : ∃ r, Grammar.parse input = .ok r :=
+  parse_never_panics_of_parseFuel (by intro i; unfold Grammar.parseFuel; omega) input
 
 /-! ### non-vacuity -/
 
@@ -111,6 +111,6 @@ run needs more than 12 units per bracket -/
 example : isOutOfFuel (run ("def x { int y = ".toList ++ List.replicate 16 '[') (12 * 16)) = true := by
   decide +kernel
 
-example : ∃ r, Grammar.parse exInput2 = .ok r := parse_never_panics_short exInput2 (by decide)
+example : ∃ r, Grammar.parse exInput2 = .ok r := parse_never_panics exInput2
 
 end Tg.C02
